@@ -632,3 +632,18 @@ pub async fn run_flush_unblocker(peer: Peer) {
         peer.block_flush(false);
     }
 }
+
+impl actix_rt::net::ActixStream for SimIo {
+    fn poll_read_ready(&self, cx: &mut Context<'_>) -> Poll<io::Result<actix_rt::net::Ready>> {
+        let mut s = self.0.borrow_mut();
+        if !s.rx.is_empty() || s.rx_eof || s.rx_reset {
+            Poll::Ready(Ok(actix_rt::net::Ready::READABLE))
+        } else {
+            s.read_waker = Some(cx.waker().clone());
+            Poll::Pending
+        }
+    }
+    fn poll_write_ready(&self, _cx: &mut Context<'_>) -> Poll<io::Result<actix_rt::net::Ready>> {
+        Poll::Ready(Ok(actix_rt::net::Ready::WRITABLE))
+    }
+}
